@@ -51,6 +51,22 @@ def run_digests(c, family, module, vec_module, builds, pin=None):
     vlib.validate_stateless(c, module, recs, lambda e: {"alg": e["alg"], "n": e["n"], "len": len(e["msg"]), "cfg": e["cfg"], "res": e["res"].split(":")[0]},
                             mutate, "%s digests" % family, timeout=6000)
     c.add_events(allrecs, key=lambda e: (e["alg"], e["n"], e["msg"]), sample=1)
+    # very long messages: "for every message" includes lengths beyond 2^32 bits / 2^8..2^32 blocks; they are reached with a
+    # fast-forwarded length counter (hook H2) crossed by real data, as in C17, and validated by the same specification
+    ctr_module = {"blake": "TraceCtrBlake", "jh": "TraceCtrJH", "groestl": "TraceCtrGroestl", "skein": "TraceCtrSkein"}[family]
+    binary = vlib.build("std-rel")
+    trace = os.path.join(wd, "ff-%s.ndjson" % family)
+    vlib.run_harness(binary, ["c17", "--family", family, "--seed", str(c.seed), "--tier", "quick"], out=trace)
+    ff = vlib.read_ndjson(trace)
+    if not c.thorough:
+        ff = ff[:: 3 if family in ("groestl",) else 2]
+
+    def mutate_ff(e):
+        e["out"][0] ^= 0x10
+    vlib.validate_stateless(c, ctr_module, ff, lambda e: {"alg": e["alg"], "tag": e["tag"], "ev": "ff", "res": e["res"].split(":")[0]},
+                            mutate_ff, "%s long-message digests (fast-forwarded counter)" % family, timeout=6000, workers=12)
+    c.add_events(ff, key=lambda e: (e["alg"], e["base"], e["rest"]), sample=1)
+    c.cov["long_message_events"] = len(ff)
     c.cov["configurations"] = ["%s/force=%d" % x for x in builds]
     c.cov["distinct_outputs_validated_by_tlc"] = len(recs)
     return allrecs
